@@ -227,6 +227,29 @@ def run_batch(pid, tier, seed, workers=16, max_cases=None):
 
     known_hits = {}
     new = []
+    # witnesses of the listed (open) findings are re-run on every invocation, so that each listed
+    # finding is either reported as KNOWN-FINDING or noted as no longer reproducing
+    stale = []
+    for f in known.get("findings", []):
+        if f.get("property") != pid or not f.get("witness"):
+            continue
+        try:
+            wj = json.load(open(os.path.join(VERIF, f["witness"])))
+            wout = run_case_inproc(prop, wj["case"])
+            hit = [v for v in wout["violations"] if classify(prop, wj["case"], v, {"findings": [f]}) is not None]
+            if hit:
+                known_hits.setdefault(f["id"], {"finding": f, "n": 0, "first": -1})["n"] += 1
+            else:
+                stale.append(f["id"])
+            for v in wout["violations"]:
+                if classify(prop, wj["case"], v, known) is None:
+                    cases.append(wj["case"])
+                    results.append(wout)
+                    viol.append((len(cases) - 1, v))
+        except FileNotFoundError:
+            stale.append(f["id"] + " (witness file missing)")
+    for sid in stale:
+        print("note: listed finding %s did not reproduce from its witness on this tree" % sid)
     for idx, v in viol:
         f = classify(prop, cases[idx], v, known)
         if f is not None:
